@@ -3,7 +3,7 @@
    on both branches of [infidelity].                                                          *)
 From Coq Require Import ZArith Reals List Lra Lia Bool Setoid Morphisms.
 From FF Require Import Base.Ops Inst.RInst Base.RAlg Base.FMat Model.Numeric Model.Decay Model.Cumulant
-     Proofs.Trapz Proofs.Decay Proofs.TraceId.
+     Proofs.Trapz Proofs.Decay Proofs.DecayPrefix Proofs.TraceId.
 Import ListNotations.
 Local Open Scope R_scope.
 
@@ -51,17 +51,17 @@ Proof.
   unfold cre. rewrite <- csumn_mul_r, csumn_re. apply sumn_ext. intros k _. unfold g. f_equal. ring.
 Qed.
 
-Theorem pc_infid_sum d na nk no (Bpc : list A3r) idx (sp : spectrumR) omega i j :
+(* which='correlations' WITHOUT a cached pulse-correlation control matrix: the uncorrected pulse-correlation
+   infidelities sum to the UNCORRECTED total (fidelity filter function of the summed control matrix) *)
+Theorem pc_uncorrected_sum d na nk no (Bpc : list A3r) (basis : list MatR) idx (sp : spectrumR) omega i j :
   idx_ok na idx -> length omega = no ->
   (i < length idx)%nat -> (j < length idx)%nat -> (is_cross sp = false -> i = j) ->
   sumn' (length Bpc) (fun g => sumn' (length Bpc) (fun h =>
-     nth (lead_pos sp (length idx) i j) (nth h (nth g (infidelity_pc RO d na nk no Bpc idx sp omega) []) []) 0)) =
+     nth (lead_pos sp (length idx) i j) (nth h (nth g (infidelity_pc RO d false na nk no Bpc basis idx sp omega) []) []) 0)) =
   nth (lead_pos sp (length idx) i j)
-      (infid_of_ff RO d (infid_ff_traceless RO na nk no (cm_pc_sum RO na nk no Bpc)) idx sp no omega) 0.
+      (infid_of_ff RO d (ff_fidelity2 RO na nk no (cm_pc_sum RO na nk no Bpc) (cm_pc_sum RO na nk no Bpc)) idx sp no omega) 0.
 Proof.
   intros Hidx Hom Hi Hj Hc.
-  change (infid_ff_traceless RO na nk no (cm_pc_sum RO na nk no Bpc))
-    with (ff_fidelity2 RO na nk no (cm_pc_sum RO na nk no Bpc) (cm_pc_sum RO na nk no Bpc)).
   rewrite (infid_fid2_entry d na nk no) by auto.
   rewrite (sumn_ext (length Bpc) _ (fun g => sumn' (length Bpc) (fun h =>
      sumn' nk (fun k => Gamma (nth g Bpc []) (nth h Bpc []) idx sp no omega i j k k) / INR d))).
@@ -81,6 +81,90 @@ Proof.
     by (intros; apply sumn_swap).
   apply sumn_swap.
 Qed.
+
+(* which='correlations' WITH the cached pulse-correlation control matrix (after fix 2891db3): the corrected
+   pulse-correlation infidelities sum to the total infidelity, for every complete orthonormal Hermitian basis *)
+Section PcSum.
+Variable d : nat.
+Variable basis : list MatR.
+Let n := length basis.
+Let Cb : nat -> fmat := fun k => toF (nthm basis k).
+Hypothesis Hd : (0 < d)%nat.
+Hypothesis Hherm : basis_herm d n Cb.
+Variables (na nk no : nat) (Bpc : list A3r) (idx : list nat) (sp : spectrumR) (omega : list R).
+Hypothesis Hnk : nk = n.
+Hypothesis Hidx : idx_ok na idx.
+Hypothesis Hom : length omega = no.
+
+Lemma trG_rmbuild (f : nat -> nat -> R) : trG basis (rmbuild nk nk f) = sumn' n (fun k => f k k).
+Proof. unfold trG. apply sumn_ext. intros k Hk. unfold rmget, rmbuild. fold n. rewrite Hnk, !nth_build by auto. reflexivity. Qed.
+Lemma GT_rmbuild (f : nat -> nat -> R) :
+  GT d basis (rmbuild nk nk f) = sumn' n (fun k => sumn' n (fun l => f k l * (trb d basis k * trb d basis l))).
+Proof. unfold GT. apply sumn_ext. intros k Hk. apply sumn_ext. intros l Hl.
+  unfold rmget, rmbuild. fold n. rewrite Hnk, !nth_build by auto. reflexivity. Qed.
+
+Theorem pc_infid_sum i j :
+  (i < length idx)%nat -> (j < length idx)%nat -> (is_cross sp = false -> i = j) ->
+  sumn' (length Bpc) (fun g => sumn' (length Bpc) (fun h =>
+     nth (lead_pos sp (length idx) i j) (nth h (nth g (infidelity_pc RO d true na nk no Bpc basis idx sp omega) []) []) 0)) =
+  nth (lead_pos sp (length idx) i j)
+      (infidelity_total RO d na nk no (cm_pc_sum RO na nk no Bpc) basis idx sp omega) 0.
+Proof.
+  intros Hi Hj Hc.
+  rewrite (infidelity_entry d basis Hd Hherm na nk no _ idx sp omega Hnk Hidx Hom i j Hi Hj Hc).
+  rewrite (sumn_ext (length Bpc) _ (fun g => sumn' (length Bpc) (fun h =>
+     (INR d * trG basis (rmbuild nk nk (fun k l => Gamma (nth g Bpc []) (nth h Bpc []) idx sp no omega i j k l))
+      - GT d basis (rmbuild nk nk (fun k l => Gamma (nth g Bpc []) (nth h Bpc []) idx sp no omega i j k l))) / (INR d * INR d)))).
+  2:{ intros g Hg. apply sumn_ext. intros h Hh. unfold infidelity_pc.
+      rewrite (nth_map_lt _ Bpc g [] []) by auto. rewrite (nth_map_lt _ Bpc h [] []) by auto.
+      apply (corrected_entry d basis Hd Hherm na nk no idx sp omega Hnk Hidx Hom); auto. }
+  rewrite !trG_rmbuild, !GT_rmbuild.
+  rewrite (sumn_ext (length Bpc) _ (fun g => sumn' (length Bpc) (fun h =>
+     INR d * sumn' n (fun k => Gamma (nth g Bpc []) (nth h Bpc []) idx sp no omega i j k k)
+     - sumn' n (fun k => sumn' n (fun l => Gamma (nth g Bpc []) (nth h Bpc []) idx sp no omega i j k l * (trb d basis k * trb d basis l)))) * / (INR d * INR d))).
+  2:{ intros g _. unfold Rdiv. rewrite <- sumn_mul_r. apply sumn_ext. intros h _.
+      rewrite !trG_rmbuild, !GT_rmbuild. reflexivity. }
+  rewrite sumn_mul_r. unfold Rdiv. f_equal.
+  (* linearity in (g,h) *)
+  rewrite (sumn_ext n (fun k => Gamma (cm_pc_sum RO na nk no Bpc) (cm_pc_sum RO na nk no Bpc) idx sp no omega i j k k)
+                      (fun k => sumn' (length Bpc) (fun g => sumn' (length Bpc) (fun h =>
+                          Gamma (nth g Bpc []) (nth h Bpc []) idx sp no omega i j k k))))
+    by (intros k Hk; apply (pc_decay_sum Bpc na nk no); auto; try (apply Hidx; auto); rewrite Hnk; auto).
+  rewrite (sumn_ext n (fun k => sumn' n (fun l => Gamma (cm_pc_sum RO na nk no Bpc) (cm_pc_sum RO na nk no Bpc) idx sp no omega i j k l * (trb d basis k * trb d basis l)))
+                      (fun k => sumn' n (fun l => sumn' (length Bpc) (fun g => sumn' (length Bpc) (fun h =>
+                          Gamma (nth g Bpc []) (nth h Bpc []) idx sp no omega i j k l * (trb d basis k * trb d basis l)))))).
+  2:{ intros k Hk. apply sumn_ext. intros l Hl.
+      rewrite (pc_decay_sum Bpc na nk no) by (auto; try (apply Hidx; auto); rewrite Hnk; auto).
+      rewrite <- sumn_mul_r. apply sumn_ext. intros g _. rewrite <- sumn_mul_r. reflexivity. }
+  (* both sides as sums over g, h of the same expression *)
+  symmetry.
+  rewrite (sumn_ext (length Bpc) _ (fun g => INR d * sumn' (length Bpc) (fun h => sumn' n (fun k => Gamma (nth g Bpc []) (nth h Bpc []) idx sp no omega i j k k))
+     - sumn' (length Bpc) (fun h => sumn' n (fun k => sumn' n (fun l => Gamma (nth g Bpc []) (nth h Bpc []) idx sp no omega i j k l * (trb d basis k * trb d basis l)))))).
+  2:{ intros g _. rewrite <- sumn_mul_l, sumn_sub. reflexivity. }
+  rewrite <- sumn_sub, sumn_mul_l. f_equal.
+  - f_equal. rewrite sumn_swap. apply sumn_ext. intros g _. apply sumn_swap.
+  - rewrite (sumn_ext n _ (fun k => sumn' (length Bpc) (fun g => sumn' (length Bpc) (fun h => sumn' n (fun l =>
+       Gamma (nth g Bpc []) (nth h Bpc []) idx sp no omega i j k l * (trb d basis k * trb d basis l)))))).
+    2:{ intros k _. rewrite sumn_swap. apply sumn_ext. intros g _. apply sumn_swap. }
+    rewrite sumn_swap. apply sumn_ext. intros g _. rewrite sumn_swap. reflexivity.
+Qed.
+(* ... and WITHOUT the cached control matrix the uncorrected sum exceeds the total by the identity component *)
+Theorem pc_uncached_excess i j :
+  (i < length idx)%nat -> (j < length idx)%nat -> (is_cross sp = false -> i = j) ->
+  sumn' (length Bpc) (fun g => sumn' (length Bpc) (fun h =>
+     nth (lead_pos sp (length idx) i j) (nth h (nth g (infidelity_pc RO d false na nk no Bpc basis idx sp omega) []) []) 0)) =
+  nth (lead_pos sp (length idx) i j) (infidelity_total RO d na nk no (cm_pc_sum RO na nk no Bpc) basis idx sp omega) 0
+  + GT d basis (rmbuild nk nk (fun k l => Gamma (cm_pc_sum RO na nk no Bpc) (cm_pc_sum RO na nk no Bpc) idx sp no omega i j k l))
+    / (INR d * INR d).
+Proof.
+  intros Hi Hj Hc.
+  rewrite (pc_uncorrected_sum d na nk no Bpc basis idx sp omega i j) by auto.
+  rewrite (infid_fid2_entry d na nk no) by auto.
+  rewrite (infidelity_entry d basis Hd Hherm na nk no _ idx sp omega Hnk Hidx Hom i j Hi Hj Hc).
+  rewrite trG_rmbuild. rewrite Hnk.
+  assert (Hd0 : INR d <> 0) by (apply not_0_INR; lia). field. auto.
+Qed.
+End PcSum.
 
 (* ---------- positive semidefinite spectra ---------- *)
 (* the Hermitian form of the spectrum at frequency o over the leading index pairs:
@@ -158,11 +242,11 @@ Qed.
 Lemma denom_pos : 0 < 2 * PI * INR d.
 Proof. apply Rmult_lt_0_compat. generalize PI_RGT_0; lra. apply lt_0_INR; auto. Qed.
 
-(* traceless branch *)
-Theorem infid_nonneg_traceless (basis : list MatR) :
-  0 <= sumlist RO (infidelity_total RO d true na nk no Bm basis idx sp omega).
+(* pre-fix traceless branch *)
+Theorem infid_nonneg_traceless_prefix (basis : list MatR) :
+  0 <= sumlist RO (infidelity_total_prefix d true na nk no Bm basis idx sp omega).
 Proof.
-  unfold infidelity_total. rewrite total_as_trapz.
+  unfold infidelity_total_prefix. rewrite total_as_trapz.
   apply Rmult_le_pos; [| left; apply Rinv_0_lt_compat, denom_pos].
   apply trapz_w_nonneg; auto. intros o Ho.
   rewrite (lsumR_ext lds _ (fun p => sumn' nk (fun k =>
@@ -175,7 +259,7 @@ Proof.
     unfold cre. rewrite <- csumn_mul_r, csumn_re. apply sumn_ext. intros k _. unfold vk. f_equal. ring.
 Qed.
 
-(* non-traceless branch: complete orthonormal Hermitian basis *)
+(* the infidelity of the package (after fix 2891db3): complete orthonormal Hermitian basis *)
 Variable basis : list MatR.
 Let n := length basis.
 Let Cb : nat -> fmat := fun k => toF (nthm basis k).
@@ -195,8 +279,8 @@ Proof.
   apply (f_equal fst) in H. rewrite csumn_re in H. exact H.
 Qed.
 
-Theorem infid_nonneg_general :
-  0 <= sumlist RO (infidelity_total RO d false na nk no Bm basis idx sp omega).
+Theorem infid_nonneg :
+  0 <= sumlist RO (infidelity_total RO d na nk no Bm basis idx sp omega).
 Proof.
   unfold infidelity_total. rewrite total_as_trapz.
   apply Rmult_le_pos; [| left; apply Rinv_0_lt_compat, denom_pos].
@@ -205,8 +289,8 @@ Proof.
   set (t := trb d basis).
   (* the integrand summed over the leading pairs, as (1/(2d)) sum_kl Re Q(D_kl, D_kl) *)
   set (Dkl := fun k l : nat => fun i : nat => csub' (cmul' (rc (t l)) (vk o k i)) (cmul' (rc (t k)) (vk o l i))).
-  assert (E : lsumR lds (fun p => integrand_fid RO (infid_ff_general RO d na nk no Bm
-                  (traces_diag_arr RO d (pair_products RO d basis) nk)) idx sp (fst p) (snd p) o) =
+  assert (E : lsumR lds (fun p => integrand_fid RO (infid_ff_corrected RO d na nk no Bm Bm (basis_traces RO d basis nk))
+                  idx sp (fst p) (snd p) o) =
               / (2 * INR d) * sumn' n (fun k => sumn' n (fun l => fst (Qform sp lds o (Dkl k l) (Dkl k l))))).
   { set (term := fun (p : nat * nat) k l =>
        cmul' (cmul' (cconj' (Dkl k l (fst p))) (spec_at RO sp (fst p) (snd p) o)) (Dkl k l (snd p))).
@@ -217,39 +301,16 @@ Proof.
     apply leads_bound in Hp. destruct Hp as [H1 H2].
     transitivity (/ (2 * INR d) * fst (csumn' n (fun k => csumn' n (fun l => term p k l)))).
     2:{ f_equal. rewrite csumn_re. apply sumn_ext. intros k _. rewrite csumn_re. reflexivity. }
-    unfold term.
-    unfold Dkl. rewrite (lagrange n t (fun k => vk o k (fst p)) (fun k => vk o k (snd p))).
+    unfold term, Dkl. rewrite (lagrange n t (fun k => vk o k (fst p)) (fun k => vk o k (snd p))).
     fold t. replace (sumn' n (fun l => t l * t l)) with (INR d) by (symmetry; apply sum_trb_sq).
-    (* left-hand side *)
-    unfold integrand_fid, infid_ff_general.
-    rewrite a3get_a3build by (auto; apply Hidx; auto). rewrite dnat_INR, Hnk.
-    rewrite (csumn_ext n (fun k => csumn' n (fun l => cmul' (cmul' (cconj' (a3get RO Bm (sel idx (fst p)) k o))
-                 (a3get RO Bm (sel idx (snd p)) l o)) (nth l (nth k (traces_diag_arr RO d (pair_products RO d basis) n) []) 0c)))
-              (fun k => csumn' n (fun l => cmul' (cmul' (cconj' (vk o k (fst p))) (vk o l (snd p))) (rc (tdr d basis k l))))).
-    2:{ intros k Hk. apply csumn_ext. intros l Hl.
-        rewrite (nth_traces_diag_arr d basis Hherm Honb Hcomp) by auto. reflexivity. }
-    (* sum_kl conj(v_k) v_l (d delta_kl - t_k t_l) = d sum_k conj(v_k) v_k - (sum t conj v)(sum t v) *)
-    assert (S1 : csumn' n (fun k => csumn' n (fun l =>
-                   cmul' (cmul' (cconj' (vk o k (fst p))) (vk o l (snd p))) (rc (tdr d basis k l)))) =
-                 csub' (cmul' (rc (INR d)) (csumn' n (fun k => cmul' (cconj' (vk o k (fst p))) (vk o k (snd p)))))
-                       (cmul' (csumn' n (fun k => cmul' (rc (t k)) (cconj' (vk o k (fst p)))))
-                              (csumn' n (fun l => cmul' (rc (t l)) (vk o l (snd p)))))).
-    { rewrite <- csumn_mul_l, <- csumn_mul_r, <- csumn_sub. apply csumn_ext. intros k Hk.
-      rewrite <- csumn_mul_l.
-      rewrite (csumn_ext n _ (fun l => csub'
-         (if Nat.eqb k l then cmul' (rc (INR d)) (cmul' (cconj' (vk o k (fst p))) (vk o l (snd p))) else 0c)
-         (cmul' (cmul' (rc (t k)) (cconj' (vk o k (fst p)))) (cmul' (rc (t l)) (vk o l (snd p)))))).
-      rewrite csumn_sub. rewrite (csumn_delta n k (fun l => cmul' (rc (INR d)) (cmul' (cconj' (vk o k (fst p))) (vk o l (snd p))))) by auto.
-      reflexivity.
-      intros l _. unfold tdr, TraceId.delta, rc. fold t. destruct (Nat.eqb k l); apply c_eq; csimp; ring. }
-    rewrite S1. clear S1.
-    set (X := csumn' n (fun k => cmul' (cconj' (vk o k (fst p))) (vk o k (snd p)))).
-    set (A := csumn' n (fun k => cmul' (rc (t k)) (cconj' (vk o k (fst p))))).
-    set (Cc := csumn' n (fun l => cmul' (rc (t l)) (vk o l (snd p)))).
-    replace (csumn' n (fun k => cmul' (cmul' (cconj' (vk o k (fst p))) (spec_at RO sp (fst p) (snd p) o)) (vk o k (snd p))))
-      with (cmul' X (spec_at RO sp (fst p) (snd p) o))
-      by (unfold X; rewrite <- csumn_mul_r; apply csumn_ext; intros; ring).
-    destruct X, A, Cc, (spec_at RO sp (fst p) (snd p) o). unfold rc, cre. csimp. field. auto. }
+    rewrite (corrected_integrand_form d basis Hherm na nk no idx sp Hnk Bm Bm (fst p) (snd p) o)
+      by (auto; apply Hidx; auto).
+    unfold vk, t, rc. change (length basis) with n.
+    set (X := csumn' n (fun k => cmul' (cmul' (cconj' (a3get RO Bm (sel idx (fst p)) k o)) (spec_at RO sp (fst p) (snd p) o))
+                                       (a3get RO Bm (sel idx (snd p)) k o))).
+    set (A := csumn' n (fun k => cmul' (trb d basis k, 0) (cconj' (a3get RO Bm (sel idx (fst p)) k o)))).
+    set (B := csumn' n (fun l => cmul' (trb d basis l, 0) (a3get RO Bm (sel idx (snd p)) l o))).
+    destruct X, A, B, (spec_at RO sp (fst p) (snd p) o). unfold cre. csimp. field. auto. }
   rewrite E.
   apply Rmult_le_pos. left. apply Rinv_0_lt_compat. generalize (lt_0_INR d Hd). lra.
   apply sumn_nonneg. intros k _. apply sumn_nonneg. intros l _. apply (Hpsd o Ho).
